@@ -276,7 +276,15 @@ func (p *sampledLFU) fillSample(in []*policyPair) []*policyPair {
 	if len(in) >= lfuSample {
 		return in
 	}
+sampling:
 	for key, cost := range p.keyCosts {
+		// Every call restarts the iteration, so skip the keys that are already
+		// in the sample: a key sampled twice could be evicted twice.
+		for _, pair := range in {
+			if pair.key == key {
+				continue sampling
+			}
+		}
 		in = append(in, &policyPair{key, cost})
 		if len(in) >= lfuSample {
 			return in
